@@ -2775,9 +2775,16 @@ static double amplgsl_cdf_gamma_P(arglist *al) {
   double x = al->ra[0], a = al->ra[1], b = al->ra[2];
   if (al->derivs && check_const_arg(al, 1, "a") &&
       check_const_arg(al, 2, "b") && !al->dig[0]) {
-    *al->derivs = pow(x / b, a) / (exp(x / b) * x * gsl_sf_gamma(a));
-    if (al->hes)
-      *al->hes = *al->derivs * ((a - 1) / x - 1 / b);
+    if (x < 0) {
+      /* The distribution function is identically 0 on the negative axis. */
+      *al->derivs = 0;
+      if (al->hes)
+        *al->hes = 0;
+    } else {
+      *al->derivs = pow(x / b, a) / (exp(x / b) * x * gsl_sf_gamma(a));
+      if (al->hes)
+        *al->hes = *al->derivs * ((a - 1) / x - 1 / b);
+    }
   }
   return check_result(al, gsl_cdf_gamma_P(x, a, b));
 }
